@@ -19,8 +19,19 @@ RULE = ("case = (m npre npost (l0 l1 .. ln)): a real tachys keyed(..) view whose
         "randomly relabelled pairs, random pairs of length <= 12 over 16 keys and histories of 3-8 successive updates "
         "(all from the PRNG seeded by VERIF_SEED); and modes 11/12: the real leptos <For> / <ForEnumerate> mounted with "
         "mount_to_renderer, rows creating an RwSignal (rendered as text), a StoredValue and an on_cleanup inside the "
-        "children closure, histories of 2-7 lists, every rendered row's signal written after every update. Non-trivial = at least one update changes the key sequence; "
-        "distinct = distinct case hash.")
+        "children closure, histories of 2-7 lists, every rendered row's signal written after every update; mode 14: the "
+        "real leptos <For each=move || store.group().rows() key=|row| row.id().get()> over a KEYED FIELD of a "
+        "#[derive(Store)] struct (#[store(key: i64 = |r| r.id)] rows: Vec<Row>, one level below the root), i.e. "
+        "reactive_stores' KeyedSubfield::into_iter / AtKeyed rows, every row rendering the label of ITS item through its "
+        "AtKeyed subfield, histories of 2-7 lists each written through the keyed field's guard, rows().set, the "
+        "parent's guard / update, the root's guard or store.set (mixed at random, some histories only through the field, "
+        "some only through ancestors), the label of every rendered item incremented after every update through the "
+        "row's AtKeyed handle, the field's guard or the root's guard; mode 20 'shaped rows': keyed(..) whose row for key "
+        "k is shape[k mod p] of 1-4 random shapes over text | () | <span> | tuple | nested keyed list | Vec | Option | "
+        "Either | EitherOf3 | array | StaticVec (every child position type-erased), 60% of the shapes being or starting "
+        "with a (mostly non-empty) inner list, so that every Mountable::insert_before_this of tachys/src/view is the "
+        "'next mounted sibling' of apply_diff, histories of 2-6 lists. Non-trivial = at least one update changes the "
+        "key sequence; distinct = distinct case hash.")
 TRUSTED = [
     "Coq 8.16.1 kernel (coqc); every theorem of Properties_C11.v is 'Closed under the global context'",
     "extraction to OCaml with ExtrOcamlBasic only, ocamlfind ocamlopt, extract/driver.ml sexp I/O",
@@ -32,6 +43,19 @@ TRUSTED = [
     "any_spawner futures-executor polled by hand; that a retained row's reactive state (owner, signals, cleanups) "
     "stays alive is COMPARED (model answers count = writes since built, disposed = 0) and checked by the oracle, not "
     "proved: the Coq model has no reactive owners",
+    "`h_dom c11` mode 20 (shaped rows): the Coq model abstracts an item view as a `builder` = ANY fresh non-empty list of "
+    "top-level nodes (theorems: for all builders with bld_ok; var_bld_ok proves it for the builder the run function "
+    "uses), so a row that is a nested keyed list / Vec / Option / Either / tuple is covered by the theorems AS A NODE "
+    "LIST; what is COMPARED, not proved, is that the real Mountable impls of those row states (KeyedState, VecState, "
+    "OptionState, Either*, tuples, ArrayState, StaticVecState, AnyViewState: mount / unmount / insert_before_this) "
+    "behave like that node list: mount = each node in order before the anchor, insert_before_this = before the row's "
+    "first node (tachys asks only the FIRST row of an inner keyed list, so this needs every sub-view to own a node); "
+    "the flattening of a shape into nodes (shape_nodes in Dom/KeyedRun.v) is re-implemented in the oracle",
+    "`h_dom c11` mode 14 (src/c11store.rs): leptos::For over reactive_stores' KeyedSubfield / AtKeyed (#[derive(Store)], "
+    "Store::new, write guards of the field / parent / root, set, update) + mount_to_renderer + hand-polled executor; the "
+    "model answers what mode 11 answers (order = the new key order by Keyed.v, label shown = entries since the row was "
+    "built), so that the key map of the store is fresh whenever <For> and the rows resolve their keys is COMPARED and "
+    "checked by the oracle, not proved: the Coq model has no store",
     "modelled, not verified: indexmap::IndexSet (as a duplicate-free list: get_index, get_full, contains), Vec "
     "(push, take, resize_with, drain_filter), the item views' own mount / unmount / insert_before_this (each node in "
     "order before the anchor; first mounted node is the anchor) — transcribed in Dom/Keyed.v and compared with the "
@@ -41,7 +65,8 @@ TRUSTED = [
 ASSUMPTIONS = [
     "both key sequences are duplicate-free (the property's hypothesis; IndexSet would silently drop duplicates)",
     "every item owns at least one DOM node that is mounted (items such as an empty fragment own none; then "
-    "insert_before_this fails and the code falls back to the marker)",
+    "insert_before_this fails and the code falls back to the marker); in mode 20 every sub-view of a row does "
+    "(StaticVec / arrays are non-empty)",
     "the list is mounted (KeyedState.parent = Some) when it is rebuilt",
 ]
 LEVEL_TEXT = "proof"
@@ -221,6 +246,18 @@ def generate(rng, tier):
         for _ in range(rng.randint(1, 6)):
             ls.append(mutate(rng, ls[-1], nk) if rng.random() < 0.8 else rand_list(rng, 6, nk))
         yield dict(case=C.norm([mode, npre, npost, ls]), kind="leptos-For" if mode == 11 else "leptos-ForEnumerate")
+    # <For> over a keyed field of a reactive store, writes through the field, its parent and the root
+    for i in range(2500 if tier == "quick" else 25000):
+        npre, npost = rng.choice([(0, 0), (1, 1), (0, 1), (2, 0)])
+        nk = rng.choice([3, 5, 8])
+        ls = [rand_list(rng, 6, nk)]
+        for _ in range(rng.randint(1, 6)):
+            ls.append(mutate(rng, ls[-1], nk) if rng.random() < 0.8 else rand_list(rng, 6, nk))
+        style = rng.random()
+        vias = [0, 4] if style < 0.15 else ([1, 2, 3, 5] if style < 0.4 else [0, 1, 2, 3, 4, 5])
+        bumps = [0] if rng.random() < 0.5 else [0, 0, 1, 2]
+        ops = [rng.choice(vias) + 10 * rng.choice(bumps) for _ in ls]
+        yield dict(case=C.norm([14, npre, npost, ls, ops]), kind="leptos-For-over-keyed-store-field")
     # rows that are (or start with) keyed lists / Vec / Option / Either / tuples / arrays / StaticVec
     for i in range(4000 if tier == "quick" else 40000):
         yield gen_shaped(rng)
@@ -251,11 +288,14 @@ def valid_case(item):
     if not (isinstance(c, list) and len(c) in (4, 5) and all(isinstance(x, int) for x in c[:3]) and isinstance(c[3], list)):
         return False
     m, npre, npost, ls = c[:4]
-    if (len(c) == 5) != (m == 20):
+    if (len(c) == 5) != (m in (14, 20)):
+        return False
+    if m == 14 and not (isinstance(c[4], list) and len(c[4]) <= 10      # a missing op is 0
+                        and all(isinstance(o, int) and 0 <= o % 10 <= 5 and 0 <= o // 10 <= 2 for o in c[4])):
         return False
     if m == 20 and not (isinstance(c[4], list) and 1 <= len(c[4]) <= 4 and all(valid_shape(x) for x in c[4])):
         return False
-    if m not in (1, 2, 3, 11, 12, 20) or not (0 <= npre <= 4) or not (0 <= npost <= 4) or not ls:
+    if m not in (1, 2, 3, 11, 12, 14, 20) or not (0 <= npre <= 4) or not (0 <= npost <= 4) or not ls:
         return False
     for l in ls:
         if not isinstance(l, list) or any((not isinstance(k, int)) or k < 0 for k in l) or len(set(l)) != len(l):
@@ -366,7 +406,7 @@ def check_for(mode, npre, npost, ls, impl):
                     if g != g0:
                         return "update %d: retained row %d was rebuilt" % (s, k)
                     if c != c0 + bump:
-                        return ("update %d %s: the text of retained row %d shows %d, its signal was written %d times"
+                        return ("update %d %s: the text of retained row %d shows %d, its signal (mode 14: its item's label in the store) was written %d times"
                                 % (s, name, k, c, c0 + bump))
                     if bump == 0 and (prev < 0 or prev >= len(prev_list) or prev_list[prev] != (k, g)):
                         return "update %d: retained row %d did not keep its DOM node" % (s, k)
@@ -389,7 +429,7 @@ def check_for(mode, npre, npost, ls, impl):
                     "a removed row is cleaned up exactly once)" % (s, sorted(cleans), gone))
         for f in flags:
             if f[2] or f[3]:
-                return "update %d: the signal / stored value of rendered row %d is disposed" % (s, f[0])
+                return "update %d: the signal (mode 14: the AtKeyed handle) / stored value of rendered row %d is disposed" % (s, f[0])
         mid = b[npre:npre + len(to)]
         prev_rows = {r[0]: (r[1], r[2]) for r in mid}
         prev_list = [(r[0], r[1]) if r[0] >= 0 else (r[0], r[2]) for r in b]
@@ -410,7 +450,7 @@ def oracle(item, impl):
         js_of = lambda k: list(range(m))
     if isinstance(impl, str):
         return "panic / harness error: " + impl
-    if m in (11, 12):
+    if m in (11, 12, 14):
         if len(impl) != len(ls):
             return "harness returned %d entries for %d lists" % (len(impl), len(ls))
         return check_for(m, npre, npost, ls, impl)
@@ -458,6 +498,15 @@ def describe(item):
         sh = item["case"][4]
         return "keyed list whose row for key k is shape[k mod %d] of {%s}, %d leading / %d following siblings: %s" % (
             len(sh), " ; ".join(show_shape(x) for x in sh), npre, npost, " -> ".join(str(l) for l in ls))
+    if m == 14:
+        via = ["rows().write()", "group().write().rows", "store.write().group.rows", "store.set(..)", "rows().set(..)",
+               "group().update(..)"]
+        bump = ["the row's AtKeyed handle", "rows().write()", "store.write()"]
+        ops = (item["case"][4] + [0] * len(ls))[:len(ls)]
+        return ("leptos <For each=store.group().rows()> over a keyed store field, rows showing their item's label, %d leading / "
+                "%d following siblings: %s; labels incremented after each step through %s" % (
+                    npre, npost, str(ls[0]) + "".join(" -[%s]-> %s" % (via[o % 10], l) for o, l in zip(ops[1:], ls[1:])),
+                    ", ".join(bump[o // 10] for o in ops)))
     if m in (11, 12):
         return "leptos %s with stateful rows, %d leading / %d following siblings: %s" % (
             "<For>" if m == 11 else "<ForEnumerate>", npre, npost, " -> ".join(str(l) for l in ls))
